@@ -706,8 +706,19 @@ func runCadenceOnce(c cadCase) (late int, overloaded bool, ok bool) {
 	if len(mon.Published) < cadPubs {
 		return 0, false, false
 	}
-	for i := 0; i+1 < cadPubs; i++ {
-		if !mon.PubTimes[i+1].Before(time.Unix(0, mon.Published[i].Expire)) {
+	// Attempt j (1-based) is late when it does not come before the expiry
+	// of the metric of the previous attempt, or - the previous attempt
+	// having failed - before the expiry of the last metric that was
+	// delivered, as long as at most one failed attempt lies in between
+	// ("TTL/4 after an error" covers one failure).
+	for j := 2; j <= cadPubs; j++ {
+		tj := mon.PubTimes[j-1]
+		isLate := !tj.Before(time.Unix(0, mon.Published[j-2].Expire))
+		if c.fails(j-1) && j >= 3 && !c.fails(j-2) &&
+			!tj.Before(time.Unix(0, mon.Published[j-3].Expire)) {
+			isLate = true
+		}
+		if isLate {
 			late++
 		}
 	}
